@@ -511,6 +511,9 @@ def _transfer(blk, st):
         v = None
         if (t["callee"].get("def") or "").endswith("ops::Try::branch") and not t["dest"]["proj"] and t["args"] and t["args"][0].get("k") in ("move", "copy") and not t["args"][0]["place"]["proj"]:
             v = st.get(t["args"][0]["place"]["local"])  # Ok -> Continue (0), Err -> Break (1)
+        # `from_residual` of a `?` on a Result always produces Err(..)
+        if v is None and (t["callee"].get("def") or "").endswith("ops::FromResidual::from_residual") and not t["dest"]["proj"] and "result::Result" in str(t["callee"].get("resolved") or ""):
+            v = 1
         if v is not None:
             st[dl] = v
         else:
